@@ -217,3 +217,61 @@ def run(facts, rep):
             rep.violation(R, "norm", "poly_infty_norm no longer %s: the norm is not the centred infinity norm" %
                           ("centres coefficients against half the modulus" if not centred else "keeps the maximum"), facts.loc(q))
     return n
+
+
+def run_reach(facts, rep):
+    """R-BUDGET(reach) [N]: the budget can be asked of every ciphertext that can be decrypted.
+
+    For each scheme on which invariant_noise_budget can return normally at all, and for each value of the ciphertext's
+    is_ntt_form flag under which Decryptor::decrypt can return normally (R-REPSTATE summaries on the scheme projection,
+    one per flag assumption), invariant_noise_budget must be able to return normally under the same flag value.  Otherwise
+    the two siblings hold contradictory beliefs about the representation of that scheme's ciphertexts: every ciphertext
+    `decrypt` accepts is refused by the budget query (in this port BGV ciphertexts are kept in NTT form, which `bgv_decrypt`
+    asserts), so the budget of that scheme — part of the property — cannot be obtained for any ciphertext the library
+    produces."""
+    import r_repstate
+    RR = "R-BUDGET(reach)"
+    rep.rule(RR, "for every scheme the budget supports, each ciphertext representation accepted by Decryptor::decrypt is accepted "
+             "by invariant_noise_budget (normal-return summaries per scheme projection and is_ntt_form assumption)")
+    dec, bud = "encryptor::Decryptor::decrypt", "encryptor::Decryptor::invariant_noise_budget"
+    if not (rep.anchor(RR, dec, dec in facts.hir) and rep.anchor(RR, bud, bud in facts.hir)):
+        return 0
+    n = 0
+
+    def ct_param(p):
+        for j, prm in enumerate(facts.items[p]["params"]):
+            if prm.get("ty", "").replace("&", "").replace("mut ", "").strip() == "text::Ciphertext":
+                return j
+        return None
+    jd, jb = ct_param(dec), ct_param(bud)
+    if jd is None or jb is None:
+        rep.unresolved(RR, "params", "ciphertext parameters not found", facts.loc(bud))
+        return 0
+    for sc in ("BFV", "BGV", "CKKS"):
+        pf = project.ProjFacts(facts, sc)
+        eng = r_repstate.RepEngine(pf)
+        nd, nb = {}, {}
+        for fl in (True, False):
+            sd = eng.summary(dec, {"flag:%d" % jd: fl})
+            sb = eng.summary(bud, {"flag:%d" % jb: fl})
+            nd[fl] = None if sd is None else sd.normal
+            nb[fl] = None if sb is None else sb.normal
+        if not any(v for v in nb.values()):
+            rep.ok(RR, sc, "%s: the budget is not offered for this scheme (refused under both representations)" % sc,
+                   facts.loc(bud), nontrivial=False)
+            continue
+        n += 1
+        bad = [fl for fl in (True, False) if nd[fl] is True and nb[fl] is False]
+        unk = [fl for fl in (True, False) if nd[fl] is None or nb[fl] is None]
+        key = "%s/is_ntt_form" % sc
+        if bad:
+            rep.violation(RR, key, "under %s, decrypt accepts ciphertexts with is_ntt_form = %s but invariant_noise_budget refuses "
+                          "exactly those (and accepts only is_ntt_form = %s, which decrypt refuses): the budget of a decryptable %s "
+                          "ciphertext cannot be queried" % (sc, str(bad[0]).lower(), str(not bad[0]).lower(), sc), facts.loc(bud))
+        elif unk:
+            rep.unresolved(RR, key, "no summary for one of the two functions", facts.loc(bud))
+        else:
+            rep.ok(RR, key, "%s: decrypt accepts is_ntt_form in {%s}; so does the budget" %
+                   (sc, ", ".join(str(fl).lower() for fl in (True, False) if nd[fl])), facts.loc(bud),
+                   sample={"scheme": sc, "decrypt": {str(k): v for k, v in nd.items()}, "budget": {str(k): v for k, v in nb.items()}})
+    return n
